@@ -120,8 +120,41 @@ fn split_datagrams(data: &[u8]) -> Vec<Vec<u8>> {
     out
 }
 
-/// C07 + C08 (+ C02 strictness of every reply) through a persistent in-process Server at Trace level
+/// C07 + C08 (+ C02 strictness of every reply) through a persistent in-process Server at Trace level.
+/// libFuzzer's main thread has no Rust thread name and `Server::new` insists on a named thread, so the lab
+/// lives in a dedicated named thread that executes one input at a time.
 pub fn server_seq(data: &[u8]) {
+    use std::sync::mpsc::{channel, Receiver, Sender};
+    use std::sync::{Mutex, OnceLock};
+    static WORKER: OnceLock<Mutex<(Sender<Vec<u8>>, Receiver<Result<(), String>>)>> = OnceLock::new();
+    let w = WORKER.get_or_init(|| {
+        let (tx_in, rx_in) = channel::<Vec<u8>>();
+        let (tx_out, rx_out) = channel::<Result<(), String>>();
+        std::thread::Builder::new()
+            .name("fuzz-server".into())
+            .stack_size(16 << 20)
+            .spawn(move || {
+                crate::engine::isolate_network();
+                while let Ok(input) = rx_in.recv() {
+                    let r = std::panic::catch_unwind(|| server_seq_inner(&input));
+                    let _ = tx_out.send(r.map_err(|p| panic_msg(&p)));
+                }
+            })
+            .expect("spawn fuzz-server thread");
+        Mutex::new((tx_in, rx_out))
+    });
+    let g = w.lock().unwrap();
+    g.0.send(data.to_vec()).expect("fuzz-server thread alive");
+    match g.1.recv().expect("fuzz-server thread alive") {
+        Ok(()) => {}
+        Err(m) => {
+            let _ = std::panic::take_hook();
+            panic!("{}", m);
+        }
+    }
+}
+
+fn server_seq_inner(data: &[u8]) {
     with_ctx("C08", |ctx| {
         install_logger(log::LevelFilter::Trace);
         let dgs = split_datagrams(data);
